@@ -37,8 +37,6 @@ import (
 	"github.com/AliceO2Group/Control/core/workflow"
 	"github.com/sirupsen/logrus"
 	"github.com/spf13/viper"
-
-	"verif/harness/vtrace"
 )
 
 // ---------- abstract template (see spec/WorkflowLoad.tla) ----------
@@ -72,6 +70,7 @@ type Case struct {
 	ID    int             `json:"id"`
 	T     []Node          `json:"T"`
 	Uv    [][2]string     `json:"uv"`
+	Sp    string          `json:"sp"`              // spelling of the boolean-ish fields (metamorphic: must not change the loaded tree)
 	Sched []string        `json:"sched,omitempty"` // extra schedules beyond the default plan
 	Raw   json.RawMessage `json:"-"`
 }
@@ -93,6 +92,63 @@ func params(np []string) string {
 	}
 	return b.String()
 }
+
+// spellEnabled returns the YAML scalar (already quoted / block form) for the `enabled` value v under spelling sp;
+// lit tells whether v is the literal "true" / "false" (then case and "1"/"0" spellings apply) or a template expression.
+// ind is the indentation of the key (block scalars need it).
+func spellEnabled(v string, lit bool, sp string, ind string) string {
+	dq := func(x string) string { // YAML double-quoted, keeping \n and \t escapes
+		x = strings.ReplaceAll(x, "\\", "\\\\")
+		x = strings.ReplaceAll(x, "\"", "\\\"")
+		x = strings.ReplaceAll(x, "\n", "\\n")
+		x = strings.ReplaceAll(x, "\t", "\\t")
+		return "\"" + x + "\""
+	}
+	switch sp {
+	case "lead":
+		return dq(" " + v)
+	case "trail":
+		return dq(v + " ")
+	case "both":
+		return dq("\t" + v + " \n")
+	case "block": // folded block scalar: the value ends with a newline
+		return ">\n" + ind + "  " + v
+	case "upper":
+		if lit {
+			return dq(strings.ToUpper(v))
+		}
+		return dq(v + "\n")
+	case "cap":
+		if lit {
+			return dq(strings.ToUpper(v[:1]) + v[1:])
+		}
+		return dq("\n" + v)
+	case "one", "onesp":
+		w := v
+		if lit {
+			w = map[string]string{"true": "1", "false": "0"}[v]
+		}
+		if sp == "onesp" {
+			w += " "
+		}
+		return dq(w)
+	}
+	return dq(v)
+}
+
+// spellBool: YAML booleans (`critical`) in the spellings YAML itself accepts
+func spellBool(b bool, sp string) string {
+	v := strconv.FormatBool(b)
+	switch sp {
+	case "upper", "both":
+		return strings.ToUpper(v)
+	case "cap", "block":
+		return strings.ToUpper(v[:1]) + v[1:]
+	}
+	return v
+}
+
+var spelling = "canon" // of the case being rendered
 
 func kids(T []Node, i int) []int {
 	out := make([]int, 0)
@@ -133,12 +189,15 @@ func render(w *strings.Builder, T []Node, i int, ind string, listItem bool) {
 	w.WriteString(pre + "name: " + yq(name) + "\n")
 	switch n.En[0] {
 	case "T":
+		if spelling != "canon" { // canonical: the key is omitted (default "true")
+			w.WriteString(ind + "enabled: " + spellEnabled("true", true, spelling, ind) + "\n")
+		}
 	case "F":
-		w.WriteString(ind + "enabled: " + yq("false") + "\n")
+		w.WriteString(ind + "enabled: " + spellEnabled("false", true, spelling, ind) + "\n")
 	case "eq":
-		w.WriteString(ind + "enabled: " + yq("{{ "+n.En[1]+" == '"+n.En[2]+"' }}") + "\n")
+		w.WriteString(ind + "enabled: " + spellEnabled("{{ "+n.En[1]+" == '"+n.En[2]+"' }}", false, spelling, ind) + "\n")
 	case "ne":
-		w.WriteString(ind + "enabled: " + yq("{{ "+n.En[1]+" != '"+n.En[2]+"' }}") + "\n")
+		w.WriteString(ind + "enabled: " + spellEnabled("{{ "+n.En[1]+" != '"+n.En[2]+"' }}", false, spelling, ind) + "\n")
 	}
 	if len(n.For) == 1 {
 		f := n.For[0]
@@ -193,21 +252,25 @@ func render(w *strings.Builder, T []Node, i int, ind string, listItem bool) {
 		w.WriteString(ind + "  load: cls\n")
 		if n.X == "hook" {
 			w.WriteString(ind + "  trigger: before_START\n")
-			w.WriteString(ind + "  critical: false\n")
+			w.WriteString(ind + "  critical: " + spellBool(false, spelling) + "\n")
 		}
 	case "call":
 		w.WriteString(ind + "call:\n")
 		w.WriteString(ind + "  func: testplugin.Noop()\n")
 		if n.X == "hook" {
 			w.WriteString(ind + "  trigger: before_START\n")
-			w.WriteString(ind + "  critical: false\n")
+			w.WriteString(ind + "  critical: " + spellBool(false, spelling) + "\n")
 		}
 	case "inc":
 		w.WriteString(ind + "include: " + n.Sub + "\n")
 	}
 }
 
-func renderRoot(T []Node) string {
+func renderRoot(T []Node, sp string) string {
+	if sp == "" {
+		sp = "canon"
+	}
+	spelling = sp
 	var w strings.Builder
 	render(&w, T, 0, "", false)
 	return w.String()
@@ -366,6 +429,61 @@ func (s *sched) handler(point string, kv ...interface{}) {
 	}
 }
 
+// ---------- trace: one line per case, written through at once (a crash of the loader must not lose finished cases) ----------
+
+type caseRecorder struct {
+	f   *os.File
+	seq int
+}
+
+// openRecorder opens the trace; with resume the file is kept and the ids of the cases already in it are returned.
+func openRecorder(path string, resume bool) (*caseRecorder, map[int]bool, error) {
+	done := map[int]bool{}
+	r := &caseRecorder{}
+	if resume {
+		if fh, err := os.Open(path); err == nil {
+			sc := bufio.NewScanner(fh)
+			sc.Buffer(make([]byte, 1<<20), 1<<26)
+			for sc.Scan() {
+				var x struct {
+					Scn int `json:"scn"`
+				}
+				if json.Unmarshal(sc.Bytes(), &x) == nil && x.Scn != 0 {
+					done[x.Scn] = true
+					r.seq++
+				}
+			}
+			fh.Close()
+		}
+	}
+	flags := os.O_CREATE | os.O_WRONLY | os.O_APPEND
+	if !resume {
+		flags |= os.O_TRUNC
+	}
+	f, err := os.OpenFile(path, flags, 0o644)
+	if err != nil {
+		return nil, nil, err
+	}
+	r.f = f
+	return r, done, nil
+}
+
+func (r *caseRecorder) EmitMap(ev string, m map[string]interface{}) {
+	r.seq++
+	m["ev"] = ev
+	m["seq"] = r.seq
+	b, err := json.Marshal(m)
+	if err != nil {
+		panic(err)
+	}
+	if _, err := r.f.Write(append(b, '\n')); err != nil {
+		fmt.Fprintln(os.Stderr, err)
+		os.Exit(3)
+	}
+}
+
+func (r *caseRecorder) Close() error { return r.f.Close() }
+
 // ---------- main ----------
 
 type loadResult struct {
@@ -411,6 +529,8 @@ func main() {
 	seed := flag.Int64("seed", 1, "seed for perturbation")
 	shard := flag.Int("shard", 0, "process only cases whose position modulo -shards equals this")
 	shards := flag.Int("shards", 1, "number of shards")
+	resume := flag.Bool("resume", false, "keep the trace file and skip the cases already recorded in it (restart after a crash of the loader)")
+	curPath := flag.String("cur", "", "file that always names the load in progress (read by the check when this process dies)")
 	dbg := flag.String("debug", "", "debug: render + load the case with this id, print YAML and the full dump")
 	flag.Parse()
 
@@ -430,9 +550,10 @@ func main() {
 		os.Exit(3)
 	}
 	defer f.Close()
-	var rec *vtrace.Recorder
+	var rec *caseRecorder
+	done := map[int]bool{}
 	if *dbg == "" {
-		rec, err = vtrace.New(*tracePath)
+		rec, done, err = openRecorder(*tracePath, *resume)
 		if err != nil {
 			fmt.Fprintln(os.Stderr, err)
 			os.Exit(3)
@@ -451,7 +572,7 @@ func main() {
 		var hdr Header
 		if json.Unmarshal(line, &hdr) == nil && hdr.Catalogue {
 			for id, T := range hdr.Subs {
-				subsYaml[id] = []byte(renderRoot(T))
+				subsYaml[id] = []byte(renderRoot(T, "canon"))
 			}
 			if len(hdr.Probe) > 0 {
 				probe = hdr.Probe
@@ -465,7 +586,7 @@ func main() {
 		}
 		var rawm map[string]json.RawMessage
 		_ = json.Unmarshal(line, &rawm)
-		doc := []byte(renderRoot(c.T))
+		doc := []byte(renderRoot(c.T, c.Sp))
 		uv := map[string]string{}
 		for _, p := range c.Uv {
 			uv[p[0]] = p[1]
@@ -498,12 +619,16 @@ func main() {
 		if pos%*shards != *shard {
 			continue
 		}
+		if done[c.ID] {
+			continue
+		}
 		ncases++
 		type outcome struct {
-			Ok   bool     `json:"ok"`
-			Hash string   `json:"hash"`
-			Tree []*PNode `json:"tree"`
-			Emsg string   `json:"emsg"`
+			Ok      bool     `json:"ok"`
+			Hash    string   `json:"hash"`
+			Tree    []*PNode `json:"tree"`
+			Emsg    string   `json:"emsg"`
+			Crashed bool     `json:"crashed"` // only ever true in lines the check writes for a load that killed this process
 		}
 		outs := make([]outcome, 0, 2)
 		outKeys := make([]string, 0, 2)
@@ -537,6 +662,13 @@ func main() {
 					sd = newSched("first", k, 0)
 					verifhook.SetHandler(sd.handler)
 				}
+				if *curPath != "" {
+					cur := fmt.Sprintf("{\"scn\":%d,\"run\":[%d,%d,%d,%d,%q]}\n", c.ID, sw[0], sw[1], sw[2], r+1, mode)
+					if err := os.WriteFile(*curPath, []byte(cur), 0o644); err != nil {
+						fmt.Fprintln(os.Stderr, err)
+						os.Exit(3)
+					}
+				}
 				res := doLoad(doc, subsYaml, repo, uv)
 				verifhook.SetHandler(nil)
 				nloads++
@@ -556,13 +688,13 @@ func main() {
 				}
 				if oi < 0 {
 					outKeys = append(outKeys, key)
-					outs = append(outs, outcome{res.ok, res.hash, res.tree, res.emsg})
+					outs = append(outs, outcome{res.ok, res.hash, res.tree, res.emsg, false})
 					oi = len(outs) - 1
 				}
 				runs = append(runs, []interface{}{sw[0], sw[1], sw[2], r + 1, mode, oi + 1, hits})
 			}
 		}
-		rec.EmitMap("Case", map[string]interface{}{"scn": c.ID, "T": rawm["T"], "uv": rawm["uv"], "outs": outs, "runs": runs})
+		rec.EmitMap("Case", map[string]interface{}{"scn": c.ID, "T": rawm["T"], "uv": rawm["uv"], "sp": c.Sp, "outs": outs, "runs": runs})
 	}
 	if err := sc.Err(); err != nil {
 		fmt.Fprintln(os.Stderr, err)
